@@ -86,7 +86,18 @@ impl Q32E2 {
 
     #[inline]
     pub fn neg(&mut self) {
-        self.0 = self.0.wrapping_neg();
+        let mut u_z = self.to_bits();
+        let mut j = u_z.iter_mut().rev();
+        while let Some(u) = j.next() {
+            if *u > 0 {
+                *u = u.wrapping_neg();
+                for w in j {
+                    *w = !*w;
+                }
+                break;
+            }
+        }
+        *self = Self::from_bits(u_z);
     }
 
     #[inline]
